@@ -86,7 +86,7 @@ def cases(rng, tier, X):
         out.append(('u%d' % k, F.universal(rng)))
         if k % 2 == 0:
             # the same kind of traffic with every kind of platform fault injected at random points
-            out.append(('uf%d' % k, F.with_faults(rng, F.universal(rng))))
+            out.append(('uf%d' % k, F.with_faults(rng, F.universal(rng), getter_mask=0x1ff, mtu0=True)))
     out += F.small_scope(2 if tier == 'quick' else 3)
     # every length 0..60 and around the MTU of one frame per opcode (thorough: all lengths)
     mtu = 576
